@@ -7,6 +7,10 @@
 -/
 import Ctrmml.Proofs.Layout
 import Ctrmml.Proofs.Mml
+import Ctrmml.Proofs.LayoutLines
+import Ctrmml.Proofs.LayoutBlockLines
+import Ctrmml.Proofs.LayoutDec
+import Ctrmml.Proofs.StarDecimal
 import Ctrmml.Spec.Layout
 namespace Ctrmml.C06
 open Ctrmml Ctrmml.Tables Ctrmml.Lexer Ctrmml.TrackBuilder Ctrmml.Mml
@@ -179,13 +183,31 @@ theorem C06_track_list_ids (fuel : Nat) (c : Int) (acc : List Nat) (s : MmlState
 example : (readLine (tx "Z09*36*65535*65541A c") 0 MmlState.init).state.trackList = [25, 26, 35, 36, 65535, 5, 0] := by
   decide +kernel
 
-/-- the full statement for `*n`: on a decimal numeral `get_num()` reads its value (C05 keeps the
-same statement as `C05_full_statement_getNum_render`; not proved) -/
+/-- the full statement for `*n`: on a decimal numeral `get_num()` reads its value (proved:
+`C06_star_decimal` below) -/
 def C06_full_statement_star_decimal : Prop :=
   ∀ (s : MmlState) (pre ds rest : List Nat), ds ≠ [] → (∀ d ∈ ds, d < 10) → digitsValue 10 ds < 2147483648 →
     (∀ c, rest.head? = some c → digitVal 10 c = none) →
     s.inp.lb = { buf := pre ++ 42 :: (decChars ds ++ rest), column := pre.length } →
     getTrackId s = .ok (digitsValue 10 ds : Int) (setLb s { buf := pre ++ 42 :: (decChars ds ++ rest), column := pre.length + 1 + ds.length })
+
+/-- `*n`: for every non-empty decimal digit string (leading zeros included) whose value is an
+`int`, followed by anything but a decimal digit, `get_track_id()` returns the value and leaves the
+cursor behind the digits — for every line buffer (no assumption that the line holds bytes only) -/
+theorem C06_star_decimal : C06_full_statement_star_decimal := by
+  intro s pre ds rest hne hds hv hrest hb
+  rw [(C06_track_id_map s pre 42 (decChars ds ++ rest) hb).2.2 rfl]
+  have hbuf : pre ++ 42 :: (decChars ds ++ rest) = (pre ++ [42]) ++ decChars ds ++ rest := by simp
+  have hg := getNum_dec (pre ++ [42]) ds rest hne hds hv hrest
+  rw [← hbuf] at hg
+  have hlen : (pre ++ [42]).length = pre.length + 1 := by simp
+  rw [hlen] at hg
+  unfold getNumC
+  simp only [setLb, hg]
+
+/-- non-vacuity: `*007` followed by a blank is track 7 -/
+example : [0, 0, 7] ≠ [] ∧ (∀ d ∈ [0, 0, 7], d < 10) ∧ digitsValue 10 [0, 0, 7] = 7 ∧
+    (∀ c, (tx " c").head? = some c → digitVal 10 c = none) := by decide
 
 /-! ## continuation lines and multi-track lines -/
 
@@ -203,6 +225,61 @@ theorem C06_multitrack_unfold (s : MmlState) (col i id : Nat) (rest : List Nat) 
       | .err e s2 => .err e s2 :=
   ⟨rfl, rfl, parseMmlLoop_cons col i id rest s⟩
 
+
+/-- a second pair with event commands of the widened subset: `AB t120 @3 v12 [c(d)2]4 L p-1 _2 __-1 k3 %5` and
+`B t120|@3<tab>v12 [ c ( d )2 ]4`, ` L p-1 _2|__-1 k3<tab>%5 ;end` -/
+def exEvMulti : List LLine :=
+  [.hdr [.letter 0, .letter 1] 32
+    [.cmd (.simple .tempoBpm (some { v := 120 })), .blank 32, .cmd (.simple .ins (some { v := 3 })), .blank 32, .cmd (.simple .vol (some { v := 12 })), .blank 32,
+     .cmd (.simple .loopStart none), .cmd (.note 2 .none (.dflt 0)), .cmd (.simple .volDown none), .cmd (.note 3 .none (.dflt 0)),
+     .cmd (.simple .volUp (some { v := 2 })), .cmd (.simple .loopEnd (some { v := 4 })), .blank 32, .cmd (.simple .segno none), .blank 32,
+     .cmd (.simple .pan (some { v := -1 })), .blank 32, .cmd (.simple .transpose (some { v := 2 })), .blank 32,
+     .cmd (.simple .transposeRel (some { v := -1 })), .blank 32, .cmd (.simple .kTranspose (some { v := 3 })), .blank 32,
+     .cmd (.simple .platform (some { v := 5 }))] []]
+
+def exEvSingle : List LLine :=
+  [.hdr [.letter 1] 32
+    [.cmd (.simple .tempoBpm (some { v := 120 })), .bar, .cmd (.simple .ins (some { v := 3 })), .blank 9, .cmd (.simple .vol (some { v := 12 })), .blank 32,
+     .cmd (.simple .loopStart none), .blank 32, .cmd (.note 2 .none (.dflt 0)), .blank 32, .cmd (.simple .volDown none), .blank 32,
+     .cmd (.note 3 .none (.dflt 0)), .blank 32, .cmd (.simple .volUp (some { v := 2 })), .blank 32, .cmd (.simple .loopEnd (some { v := 4 }))] [],
+   .cont 32 [.cmd (.simple .segno none), .blank 32, .cmd (.simple .pan (some { v := -1 })), .blank 32,
+     .cmd (.simple .transpose (some { v := 2 })), .bar, .cmd (.simple .transposeRel (some { v := -1 })), .blank 32,
+     .cmd (.simple .kTranspose (some { v := 3 })), .blank 9, .cmd (.simple .platform (some { v := 5 })), .blank 32] (tx ";end")]
+
+example : exEvMulti.map LLine.text = [tx "AB t120 @3 v12 [c(d)2]4 L p-1 _2 __-1 k3 %5"] ∧
+    exEvSingle.map LLine.text = [tx "B t120|@3\tv12 [ c ( d )2 ]4", tx " L p-1 _2|__-1 k3\t%5 ;end"] ∧ layoutCmds exEvMulti = layoutCmds exEvSingle := by
+  refine ⟨by decide, by decide, rfl⟩
+
+example : LinesOk [0, 1] false exEvMulti ∧ LinesOk [1] false exEvSingle ∧
+    (∀ id ∈ [0, 1], CmdsOk (trackOf id MmlState.init).strip (layoutCmds exEvMulti)) := by
+  decide +kernel
+
+example :
+    ((outcome ["AB t120 @3 v12 [c(d)2]4 L p-1 _2 __-1 k3 %5"]).2.lookup 1) = ((outcome ["B t120|@3\tv12 [ c ( d )2 ]4", " L p-1 _2|__-1 k3\t%5 ;end"]).2.lookup 1) ∧
+    (outcome ["AB t120 @3 v12 [c(d)2]4 L p-1 _2 __-1 k3 %5"]).1 = none := by
+  decide +kernel
+
+/-- a third pair with a reverse rest and a grace note (their side condition — the note before them
+is long enough — is part of `CmdsOk`): `AB c4 R8 ~d16 e` and `A c4|R8`, ` ~d16<tab>e` -/
+def exRevMulti : List LLine :=
+  [.hdr [.letter 0, .letter 1] 32
+    [.cmd (.note 2 .none (.len { v := 4 } 0)), .blank 32, .cmd (.revRest (.len { v := 8 } 0)), .blank 32,
+     .cmd (.grace 3 .none (.len { v := 16 } 0)), .blank 32, .cmd (.note 4 .none (.dflt 0))] []]
+
+def exRevSingle : List LLine :=
+  [.hdr [.letter 0] 32 [.cmd (.note 2 .none (.len { v := 4 } 0)), .bar, .cmd (.revRest (.len { v := 8 } 0))] [],
+   .cont 32 [.cmd (.grace 3 .none (.len { v := 16 } 0)), .blank 9, .cmd (.note 4 .none (.dflt 0))] []]
+
+example : exRevMulti.map LLine.text = [tx "AB c4 R8 ~d16 e"] ∧ exRevSingle.map LLine.text = [tx "A c4|R8", tx " ~d16\te"] ∧
+    layoutCmds exRevMulti = layoutCmds exRevSingle := by
+  refine ⟨by decide, by decide, rfl⟩
+
+example : LinesOk [0, 1] false exRevMulti ∧ LinesOk [0] false exRevSingle ∧
+    (∀ id ∈ [0, 1], CmdsOk (trackOf id MmlState.init).strip (layoutCmds exRevMulti)) := by
+  decide +kernel
+
+example : ((outcome ["AB c4 R8 ~d16 e"]).2.lookup 0) = ((outcome ["A c4|R8", " ~d16\te"]).2.lookup 0) ∧ (outcome ["AB c4 R8 ~d16 e"]).1 = none := by
+  decide +kernel
 
 /-! ## conditional blocks -/
 
@@ -273,16 +350,279 @@ theorem C06_conditional_select_partial (skipped : List (List Nat)) (pre rest : L
 /-- non-vacuity: `AB {c d/e}` for the second track: skip `c d`, land on `e` -/
 example : (∀ a ∈ [tx "c d"], ∀ x ∈ a, (schar x == 0 || (schar x == 47 || schar x == 59)) = false) := by decide
 
-/-- the full statement of `multitrack_eq_single`: a well-formed multi-track stream rendered as
-multi-track lines gives every track the events of its own single-track lines.  NOT proved (it needs
-`command_consumes_span` for every command parser); false as stated when an alternative spells `/`
-or `}` (D16: `C06_nested_separator_counterexample`); carried by the metamorphic stream -/
+/-! ## whole-line layout invariance
+
+`Proofs/TrackStrip`, `Proofs/LayoutLine`, `Proofs/LayoutLines`.  A *layout* (`LLine`, `Tok`) of a
+command list for the track list `ids` is a list of lines, each of them
+
+* `hdr as b ts e`: a track list `as` (letters, digits, `*n`: `HeaderOk`) selecting exactly `ids`, one
+  blank or tab `b`, then tokens `ts` — blanks, tabs, `|`, commands in any arrangement — then the
+  end of the line `e` (nothing, or `;` and any comment);
+* `cont b ts e`: the same without the track list (a continuation line: first byte blank), allowed
+  once a header has been read (`LinesOk`);
+* `empty`, `comment r`: neutral lines in between.
+
+`ToksOk` asks of the tokens that blanks are space or tab and that every command's look-ahead
+condition of C05 (`LCmdTail`) holds on the actual rest of its line — which is the case whenever the
+command is followed by at least one blank, tab, `|`, the comment or the end of the line
+(`C06_separator_suffices`), so a separator may be dropped only where the spelling stays unambiguous.
+`layoutCmds` are the commands of the layout in order.  The result is stated modulo the source
+references `parse_mml_track` stamps on the track and its events (`Track.strip`: line and column
+necessarily differ between layouts; `Track::get_events()` as the other properties see it carries
+no references, `strip_getEvents`). -/
+
+open Ctrmml.MmlMeaning (Cmd) in
+/-- every non-empty separator works: behind a blank, a tab, `|`, the `;` comment or at the end of
+the line, the look-ahead condition of every command holds -/
+theorem C06_separator_suffices (t : Track) (cmd : Cmd) (hn : LCmdNums t cmd) (ts : List Tok) (e : List Nat) (hok : ToksOk ts e)
+    (hcov : ∀ c ∈ cmdsOf ts, LCovered c) (he : EndOk e) (hts : ∀ c ts', ts ≠ Tok.cmd c :: ts') :
+    LCmdTail cmd (toksText ts e) :=
+  cmdTail_of_sep t cmd hn ts e hok hcov he hts
+
+/-- A LAYOUT RUNS AS ITS COMMAND LIST (PARTIAL: `CmdsOk` — every command is in the covered subset
+`LCovered` (Proofs/LayoutCmd: the subset C05 covers — notes `a`..`h` with accidental and every
+duration form, `r ^ l o < > Q q C s &` — widened by `D n` and the event commands `[ L`, `] ( )`
+with or without their number, `* @ v p K E M P G t T _ __ k %` with their number, the reverse rest
+`R` and the grace note `~`), its numbers are `int`s accepted by the command, `&` finds its note,
+`R` / `~` find a long enough event to shorten; this is the only hypothesis beyond "the lines are a
+layout").  From any state, the lines of any layout for the
+distinct tracks `ids` are accepted, every listed track ends — up to source references — as after
+the builder calls of the layout's commands in order (`runCmds`), and no other track changes. -/
+theorem C06_layout_run_partial (ids : List Nat) (ls : List LLine) (n : Nat) (s : MmlState) (r : Bool)
+    (hnd : ids.Nodup) (hne : ids ≠ []) (hok : LinesOk ids r ls) (hready : r = true → Ready ids s)
+    (hcmds : ∀ id ∈ ids, CmdsOk (trackOf id s).strip (layoutCmds ls)) :
+    ∃ s', readLines n (ls.map LLine.text) s = .ok () s' ∧
+      (∀ id ∈ ids, (trackOf id s').strip = runCmds (trackOf id s).strip (layoutCmds ls)) ∧
+      (∀ b, b ∉ ids → s'.song.tracks.lookup b = s.song.tracks.lookup b) := by
+  obtain ⟨s', h1, h2⟩ := readLines_layout ids hnd hne ls n s r hok hready hcmds
+  exact ⟨s', h1, h2.tracks, h2.others⟩
+
+/-- LAYOUT INVARIANCE (PARTIAL: same extra hypothesis `CmdsOk`).  Two layouts of the same command
+list — different blanks, tabs and bars between the commands, different comments, a different split
+into header / continuation / neutral lines, different ways of writing the track list, even
+different companion tracks on the lines — started in states that agree on track `a` up to source
+references, are both accepted and leave track `a` the same up to source references; in particular
+`get_events()` of track `a` is the same list. -/
+theorem C06_layout_invariant_partial (a : Nat) (ids1 ids2 : List Nat) (ls1 ls2 : List LLine) (n1 n2 : Nat) (s1 s2 : MmlState) (r1 r2 : Bool)
+    (ha1 : a ∈ ids1) (ha2 : a ∈ ids2) (hnd1 : ids1.Nodup) (hnd2 : ids2.Nodup)
+    (hok1 : LinesOk ids1 r1 ls1) (hok2 : LinesOk ids2 r2 ls2) (hr1 : r1 = true → Ready ids1 s1) (hr2 : r2 = true → Ready ids2 s2)
+    (hsame : layoutCmds ls1 = layoutCmds ls2) (hstart : (trackOf a s1).strip = (trackOf a s2).strip)
+    (hc1 : ∀ id ∈ ids1, CmdsOk (trackOf id s1).strip (layoutCmds ls1))
+    (hc2 : ∀ id ∈ ids2, CmdsOk (trackOf id s2).strip (layoutCmds ls2)) :
+    ∃ s1' s2', readLines n1 (ls1.map LLine.text) s1 = .ok () s1' ∧ readLines n2 (ls2.map LLine.text) s2 = .ok () s2' ∧
+      (trackOf a s1').strip = (trackOf a s2').strip ∧ (trackOf a s1').getEvents = (trackOf a s2').getEvents := by
+  obtain ⟨s1', h1, t1, _⟩ := C06_layout_run_partial ids1 ls1 n1 s1 r1 hnd1 (List.ne_nil_of_mem ha1) hok1 hr1 hc1
+  obtain ⟨s2', h2, t2, _⟩ := C06_layout_run_partial ids2 ls2 n2 s2 r2 hnd2 (List.ne_nil_of_mem ha2) hok2 hr2 hc2
+  have hst : (trackOf a s1').strip = (trackOf a s2').strip := by rw [t1 a ha1, t2 a ha2, hsame, hstart]
+  refine ⟨s1', s2', h1, h2, hst, ?_⟩
+  rw [← Track.strip_getEvents, hst, Track.strip_getEvents]
+
+/-- MULTI-TRACK LINES = SINGLE-TRACK LINES (PARTIAL: `CmdsOk`; lines without conditional blocks).
+A layout addressed to the distinct tracks `ids` (`AB… body`) gives each of its tracks `a` exactly
+what any layout of the same commands addressed to `a` alone (`A body`) gives it. -/
+theorem C06_multitrack_eq_single_partial (ids : List Nat) (a : Nat) (multi single : List LLine) (n1 n2 : Nat) (s : MmlState)
+    (ha : a ∈ ids) (hnd : ids.Nodup) (hok1 : LinesOk ids false multi) (hok2 : LinesOk [a] false single)
+    (hsame : layoutCmds multi = layoutCmds single)
+    (hc : ∀ id ∈ ids, CmdsOk (trackOf id s).strip (layoutCmds multi)) :
+    ∃ s1' s2', readLines n1 (multi.map LLine.text) s = .ok () s1' ∧ readLines n2 (single.map LLine.text) s = .ok () s2' ∧
+      (trackOf a s1').strip = (trackOf a s2').strip ∧ (trackOf a s1').getEvents = (trackOf a s2').getEvents :=
+  C06_layout_invariant_partial a ids [a] multi single n1 n2 s s false false ha (by simp) hnd (by simp) hok1 hok2
+    (fun h => by cases h) (fun h => by cases h) hsame rfl hc
+    (fun id hid => by
+      have : id = a := by simpa using hid
+      subst this; rw [← hsame]; exact hc id ha)
+
+/-! ### non-vacuity: two concrete layouts of one command list -/
+
+open Ctrmml.MmlMeaning (Cmd Dur Acc Num) in
+/-- `o4 c d8. r > e+:12 &` -/
+def exCmds : List Cmd :=
+  [.octave { v := 4 }, .note 2 .none (.dflt 0), .note 3 .none (.len { v := 8 } 1), .rest (.dflt 0), .octUp,
+   .note 4 .sharp (.frames { v := 12 } 0), .slur]
+
+/-- `AB o4 c d8. r > e+:12 &` -/
+def exMulti : List LLine :=
+  [.hdr [.letter 0, .letter 1] 32
+    [.cmd (.octave { v := 4 }), .blank 32, .cmd (.note 2 .none (.dflt 0)), .blank 32, .cmd (.note 3 .none (.len { v := 8 } 1)), .blank 32,
+     .cmd (.rest (.dflt 0)), .blank 32, .cmd .octUp, .blank 32, .cmd (.note 4 .sharp (.frames { v := 12 } 0)), .blank 32, .cmd .slur] []]
+
+/-- `*1<tab>o4c|d8.  r;x`, an empty line, `; note`, ` <tab>>e+:12&  | ; done`: no separator where
+the spelling is unambiguous, a bar, double blanks, comments, neutral lines, a continuation line -/
+def exSingle : List LLine :=
+  [.hdr [.star 1] 9
+    [.cmd (.octave { v := 4 }), .cmd (.note 2 .none (.dflt 0)), .bar, .cmd (.note 3 .none (.len { v := 8 } 1)), .blank 32, .blank 32,
+     .cmd (.rest (.dflt 0))] (tx ";x"),
+   .empty, .comment (tx " note"),
+   .cont 32 [.blank 9, .cmd .octUp, .cmd (.note 4 .sharp (.frames { v := 12 } 0)), .cmd .slur, .blank 32, .blank 32, .bar, .blank 32] (tx "; done")]
+
+/-- the texts and the command lists are what the comments say -/
+example : exMulti.map LLine.text = [tx "AB o4 c d8. r > e+:12 &"] ∧
+    exSingle.map LLine.text = [tx "*1\to4c|d8.  r;x", [], tx "; note", tx " \t>e+:12&  | ; done"] ∧
+    layoutCmds exMulti = exCmds ∧ layoutCmds exSingle = exCmds := by
+  refine ⟨by decide, by decide, rfl, rfl⟩
+
+/-- the hypotheses of `C06_layout_run_partial`, `C06_layout_invariant_partial` and
+`C06_multitrack_eq_single_partial` hold for them, started on the empty song -/
+example : LinesOk [0, 1] false exMulti ∧ LinesOk [1] false exSingle ∧ [0, 1].Nodup ∧
+    (∀ id ∈ [0, 1], CmdsOk (trackOf id MmlState.init).strip (layoutCmds exMulti)) := by
+  decide +kernel
+
+/-- … and the model, evaluated on the two texts, agrees with the conclusion: track B gets the same events -/
+example :
+    ((outcome ["AB o4 c d8. r > e+:12 &"]).2.lookup 1) = ((outcome ["*1\to4c|d8.  r;x", "", "; note", " \t>e+:12&  | ; done"]).2.lookup 1) ∧
+    (outcome ["AB o4 c d8. r > e+:12 &"]).1 = none := by
+  decide +kernel
+
+/-- a separator behind a command: the hypothesis of `C06_separator_suffices` -/
+example : ∀ c ts', [Tok.blank 9, Tok.bar, Tok.cmd .octUp] ≠ Tok.cmd c :: ts' := by
+  intro c ts' h; cases h
+
+/-! ## conditional blocks
+
+`Proofs/LayoutBlock`, `Proofs/LayoutBlockLines`.  The body of a line is now a list of `Item`s: a
+run of tokens, or a block `{a₀/a₁/…}` whose alternatives are token lists (`BLine`, `BLinesOk`).
+`ItemsOk j` asks, for the track at position `j` of the line's track list, that the block has an
+alternative `j`, that NO alternative of the block contains `/`, `;`, `}` or NUL (`Clean` — the
+hypothesis of `C06_conditional_select_partial`; exactly what D16 violates), and `ToksOk` of the
+selected alternative.  `blayoutCmds j` are the commands position `j` receives (`Item.sel`:
+a plain command goes to every track, a block gives alternative `j`). -/
+
+/-- A MULTI-TRACK LAYOUT WITH CONDITIONAL BLOCKS RUNS, PER TRACK, AS THAT TRACK'S OWN COMMAND
+LIST (PARTIAL: `CmdsOk` — covered command subset `LCovered`, numbers in range — for what each track
+receives; the `Clean` hypothesis inside `BLinesOk` is the documented limit D16).  The lines are
+accepted; the track at position `j` of the track list ends, up to source references, as after the
+builder calls of `blayoutCmds j`; no other track changes. -/
+theorem C06_multitrack_blocks_run_partial (ids : List Nat) (ls : List BLine) (n : Nat) (s : MmlState) (r : Bool)
+    (hnd : ids.Nodup) (hne : ids ≠ []) (hlen : ids.length ≤ 65536) (hok : BLinesOk ids r ls) (hready : r = true → Ready ids s)
+    (hcmds : ∀ j id, ids[j]? = some id → CmdsOk (trackOf id s).strip (blayoutCmds j ls)) :
+    ∃ s', readLines n (ls.map BLine.text) s = .ok () s' ∧
+      (∀ j id, ids[j]? = some id → (trackOf id s').strip = runCmds (trackOf id s).strip (blayoutCmds j ls)) ∧
+      (∀ b, b ∉ ids → s'.song.tracks.lookup b = s.song.tracks.lookup b) := by
+  obtain ⟨s', h1, h2⟩ := readLines_blayout ids hnd hne hlen ls n s r hok hready hcmds
+  exact ⟨s', h1, h2.tracks, h2.others⟩
+
+/-- MULTI-TRACK LINES WITH BLOCKS = THE EQUIVALENT SINGLE-TRACK LINES (PARTIAL: `CmdsOk`, and
+`Clean` inside `BLinesOk`).  For the track `a` at position `j`: the multi-track layout and ANY
+block-free layout addressed to `a` alone whose commands are `a`'s selection (plain commands and
+alternative `j` of every block) are both accepted and leave track `a` the same up to source
+references — the same `get_events()`. -/
+theorem C06_multitrack_eq_single_blocks_partial (ids : List Nat) (j a : Nat) (multi : List BLine) (single : List LLine) (n1 n2 : Nat) (s : MmlState)
+    (hj : ids[j]? = some a) (hnd : ids.Nodup) (hlen : ids.length ≤ 65536)
+    (hok1 : BLinesOk ids false multi) (hok2 : LinesOk [a] false single)
+    (hsame : layoutCmds single = blayoutCmds j multi)
+    (hc : ∀ j id, ids[j]? = some id → CmdsOk (trackOf id s).strip (blayoutCmds j multi)) :
+    ∃ s1' s2', readLines n1 (multi.map BLine.text) s = .ok () s1' ∧ readLines n2 (single.map LLine.text) s = .ok () s2' ∧
+      (trackOf a s1').strip = (trackOf a s2').strip ∧ (trackOf a s1').getEvents = (trackOf a s2').getEvents := by
+  have hne : ids ≠ [] := by intro h; rw [h] at hj; simp at hj
+  obtain ⟨s1', h1, t1, _⟩ := C06_multitrack_blocks_run_partial ids multi n1 s false hnd hne hlen hok1 (fun h => by cases h) hc
+  obtain ⟨s2', h2, t2, _⟩ := C06_layout_run_partial [a] single n2 s false (by simp) (by simp) hok2 (fun h => by cases h)
+    (fun id hid => by
+      have : id = a := by simpa using hid
+      subst this; rw [hsame]; exact hc j id hj)
+  have hst : (trackOf a s1').strip = (trackOf a s2').strip := by rw [t1 j a hj, t2 a (by simp), hsame]
+  refine ⟨s1', s2', h1, h2, hst, ?_⟩
+  rw [← Track.strip_getEvents, hst, Track.strip_getEvents]
+
+/-- the `Clean` hypothesis is automatic inside the covered subset: an alternative made of blanks,
+tabs, bars and covered commands never spells `/`, `;`, `}` or NUL (the commands that do — loop
+break, key signatures — are outside `LCovered`); what remains of D16 for such blocks is only
+"one alternative per track" -/
+theorem C06_alternatives_clean (a : List Tok) (hb : ∀ b, Tok.blank b ∈ a → b = 32 ∨ b = 9) (hcov : ∀ c ∈ cmdsOf a, LCovered c) :
+    Clean (altText a) :=
+  clean_alt a hb hcov
+
+example : (∀ b, Tok.blank b ∈ [Tok.blank 32, Tok.cmd (.simple .loopEnd (some { v := 4 }))] → b = 32 ∨ b = 9) ∧
+    (∀ c ∈ cmdsOf [Tok.blank 32, Tok.cmd (.simple .loopEnd (some { v := 4 }))], LCovered c) := by
+  refine ⟨fun b hb => ?_, fun c hc => ?_⟩
+  · simp at hb; exact Or.inl hb
+  · simp [cmdsOf] at hc; subst hc; decide
+
+/-- every command token is followed by a separator (or ends its run) -/
+def SepToks : List Tok → Prop
+  | .cmd _ :: .cmd _ :: _ => False
+  | _ :: ts => SepToks ts
+  | [] => True
+
+def SepItems (items : List Item) : Prop :=
+  ∀ it ∈ items, match it with
+    | .toks ts => SepToks ts
+    | .block alts => ∀ a ∈ alts, SepToks a
+
+def _root_.Ctrmml.Mml.BLine.items : BLine → List Item
+  | .hdr _ _ items _ => items
+  | .cont _ items _ => items
+  | _ => []
+
+/-- the full statement of `multitrack_eq_single`, for EVERY command of the AST `MmlMeaning.Cmd`
+(`Tok.cmd` takes any `Cmd`: all documented commands but the platform-exclusive string `'…'`), from
+the empty song: a multi-track layout with conditional blocks whose
+alternatives are `Clean`, every command followed by a separator, is accepted exactly when the
+single-track layouts of all its tracks are, and then gives each track the events of its
+single-track layout.  NOT proved in this generality: `C06_multitrack_eq_single_blocks_partial`
+has the extra hypothesis `CmdsOk` (every command in the covered subset `LCovered`, numbers in
+range, `&` finds its note), under which everything is accepted.  Without `Clean` the statement is false:
+D16, `C06_nested_separator_counterexample`. -/
 def C06_full_statement_multitrack_eq_single : Prop :=
-  ∀ (multi single : List (List Nat)) (a : Nat),
-    -- `single` = the lines of `multi` with every header replaced by the one track `a` and every block by `a`'s alternative
-    True →
-    ((readLines 0 multi MmlState.init).state.song.tracks.lookup a).map Track.getEvents =
-    ((readLines 0 single MmlState.init).state.song.tracks.lookup a).map Track.getEvents
+  ∀ (ids : List Nat) (multi : List BLine) (single : Nat → List LLine),
+    ids.Nodup → ids ≠ [] → ids.length ≤ 65536 → BLinesOk ids false multi → (∀ l ∈ multi, SepItems l.items) →
+    (∀ j a, ids[j]? = some a → LinesOk [a] false (single j) ∧ layoutCmds (single j) = blayoutCmds j multi) →
+    ((∃ s', readLines 0 (multi.map BLine.text) MmlState.init = .ok () s') ↔
+      ∀ j a, ids[j]? = some a → ∃ s', readLines 0 ((single j).map LLine.text) MmlState.init = .ok () s') ∧
+    (∀ s1, readLines 0 (multi.map BLine.text) MmlState.init = .ok () s1 → ∀ j a, ids[j]? = some a →
+      ∀ s2, readLines 0 ((single j).map LLine.text) MmlState.init = .ok () s2 →
+        (trackOf a s1).getEvents = (trackOf a s2).getEvents)
+
+def _root_.Ctrmml.Mml.LLine.toks : LLine → List Tok
+  | .hdr _ _ ts _ => ts
+  | .cont _ ts _ => ts
+  | _ => []
+
+/-- the full statement of layout invariance, for EVERY command of the AST `MmlMeaning.Cmd`, from
+the empty song: two layouts of one command list, every command followed by a separator, are both accepted
+or both rejected, and when accepted give the track the same events.  NOT proved in this
+generality: `C06_layout_invariant_partial` has the extra hypothesis `CmdsOk` (covered subset). -/
+def C06_full_statement_layout_invariant : Prop :=
+  ∀ (a : Nat) (ids1 ids2 : List Nat) (ls1 ls2 : List LLine),
+    a ∈ ids1 → a ∈ ids2 → ids1.Nodup → ids2.Nodup → LinesOk ids1 false ls1 → LinesOk ids2 false ls2 →
+    (∀ l ∈ ls1 ++ ls2, SepToks l.toks) → layoutCmds ls1 = layoutCmds ls2 →
+    match readLines 0 (ls1.map LLine.text) MmlState.init, readLines 0 (ls2.map LLine.text) MmlState.init with
+    | .ok _ s1, .ok _ s2 => (trackOf a s1).getEvents = (trackOf a s2).getEvents
+    | .err _ _, .err _ _ => True
+    | _, _ => False
+
+/-! ### non-vacuity: a layout with blocks, bars, an empty alternative and a continuation line -/
+
+/-- `ABC o4{c/d+/g} | {d 8/ /a:12} e`, then ` {/>f/}{g/a/b};x` -/
+def exBlocks : List BLine :=
+  [.hdr [.letter 0, .letter 1, .letter 2] 32
+    [.toks [.cmd (.octave { v := 4 })],
+     .block [[.cmd (.note 2 .none (.dflt 0))], [.cmd (.note 3 .sharp (.dflt 0))], [.cmd (.note 6 .none (.dflt 0))]],
+     .toks [.blank 32, .bar, .blank 32],
+     .block [[.cmd (.note 3 .none (.dflt 0)), .blank 32, .cmd (.length (.len { v := 8 } 0))], [.blank 32], [.cmd (.note 0 .none (.frames { v := 12 } 0))]],
+     .toks [.blank 32, .cmd (.note 4 .none (.dflt 0))]] [],
+   .cont 32
+    [.block [[], [.cmd .octUp, .cmd (.note 5 .none (.dflt 0))], []],
+     .block [[.cmd (.note 6 .none (.dflt 0))], [.cmd (.note 0 .none (.dflt 0))], [.cmd (.note 1 .none (.dflt 0))]]] (tx ";x")]
+
+/-- what `B` receives, as the single-track lines `B o4 d+ e`, ` > f a` -/
+def exBlocksB : List LLine :=
+  [.hdr [.letter 1] 32 [.cmd (.octave { v := 4 }), .blank 32, .cmd (.note 3 .sharp (.dflt 0)), .blank 32, .cmd (.note 4 .none (.dflt 0))] [],
+   .cont 32 [.cmd .octUp, .blank 32, .cmd (.note 5 .none (.dflt 0)), .blank 32, .cmd (.note 0 .none (.dflt 0))] []]
+
+example : exBlocks.map BLine.text = [tx "ABC o4{c/d+/g} | {d l8/ /a:12} e", tx " {/>f/}{g/a/b};x"] ∧
+    exBlocksB.map LLine.text = [tx "B o4 d+ e", tx " > f a"] ∧ layoutCmds exBlocksB = blayoutCmds 1 exBlocks := by
+  refine ⟨by decide, by decide, rfl⟩
+
+/-- the hypotheses of `C06_multitrack_blocks_run_partial` / `C06_multitrack_eq_single_blocks_partial` hold -/
+example : BLinesOk [0, 1, 2] false exBlocks ∧ LinesOk [1] false exBlocksB ∧ [0, 1, 2].Nodup ∧
+    (∀ j, j < 3 → CmdsOk (trackOf ([0, 1, 2].getD j 0) MmlState.init).strip (blayoutCmds j exBlocks)) := by
+  decide +kernel
+
+/-- … and the model evaluated on the texts agrees: B's events are those of its single-track lines -/
+example :
+    ((outcome ["ABC o4{c/d+/g} | {d l8/ /a:12} e", " {/>f/}{g/a/b};x"]).2.lookup 1) = ((outcome ["B o4 d+ e", " > f a"]).2.lookup 1) ∧
+    (outcome ["ABC o4{c/d+/g} | {d l8/ /a:12} e", " {/>f/}{g/a/b};x"]).1 = none := by
+  decide +kernel
 
 /-! ## D16: the textual scan of conditional blocks -/
 
